@@ -129,7 +129,12 @@ def resolve(table, host: str, psafe: str, method: str, mount: str = ""):
             cands.append((-nseg(pre), idx, e))
     for _n, _i, e in sorted(cands, key=lambda c: (c[0], c[1])):
         if e[0] == "sub":
-            return resolve(e[2], host, psafe, method, mount + e[1])  # a mounted app claims its subtree
+            r = resolve(e[2], host, psafe, method, mount + e[1])     # a mounted app claims its subtree
+            if r[0] != "ok" and allowed:
+                # ... but resources looked at before it (longer fixed prefix) that match the path keep counting:
+                # "405 with the complete set of allowed methods", "404 only if no resource matches the path"
+                return (405, frozenset(allowed | (set(r[1]) if r[0] == 405 else set())))
+            return r
         m = match(mount + e[2], psafe)
         if m is None:
             continue
